@@ -2,10 +2,12 @@
     Only property theorems; each is closed by [exact <lemma>].  Node/Model.v: the life cycle of a node (ABCI events on
     the consensus, mempool and query connections, plus ECrash = stop at this point and restart on the same database);
     Node/Chain.v instantiates it with the chain model, so [run] below is the [run] of every other property. *)
+From Coq Require Import Strings.String Strings.Byte.
 From Coq Require Import List Arith NArith ZArith Bool.
 From PV Require Import Base.Bytes Base.Outcome Chain.Model Chain.Run.
 From PV Require Import Node.Model Node.Proofs Node.Chain Chain.SchemaProps.
 From PV Require Generated.GenSchema.
+From PV Require Import Driver.Tok Driver.Driver Node.DriverTie.
 Import ListNotations.
 
 (** after ANY sequence of events (blocks begun, partly executed, ended, committed or not, crashes, mempool and query
@@ -41,3 +43,32 @@ Print Assumptions C10_restart_equivalence.
 Theorem C10_keepers_hold_no_state : forallb keeper_field_stateless GenSchema.keeper_fields = true.
 Proof. exact keepers_stateless. Qed.
 Print Assumptions C10_keepers_hold_no_state.
+
+Local Open Scope string_scope.
+Local Open Scope list_scope.
+(** the tie to what is run: the history-file interpreter (Driver/Driver.v, extracted and compared with the real application
+    on every check) refines the node model on every protocol-respecting history; so for the interpreter itself: after any
+    history that ends with a CRASH, the committed versions are those of the completed blocks and the working state is
+    [run] of them *)
+Theorem C10_driver_crash_keeps_completed_only : forall st (ls : list (list bytes)),
+  d_versions st = [] -> legal_run (st, false) (ls ++ [[b "CRASH"]]) = true ->
+  let o := oracles_of st in
+  let st' := fst (run_cmds (st, false) (ls ++ [[b "CRASH"]])) in
+  versions_view st' = d_chain st :: cversions o (d_chain st) (ccompleted (list tok) (events_of st ls)) /\
+  d_chain st' = run o (d_chain st) (ccompleted (list tok) (events_of st ls)).
+Proof. exact driver_crash_keeps_completed_only. Qed.
+Print Assumptions C10_driver_crash_keeps_completed_only.
+
+Theorem C10_driver_versions_are_run : forall st (ls : list (list tok)),
+  d_versions st = [] -> legal_run (st, false) ls = true ->
+  let o := oracles_of st in
+  let es := events_of st ls in
+  let w' := run_cmds (st, false) ls in
+  let n' := fst (nexec (frame_of st) (cstart (d_chain st)) es) in
+  versions_view (fst w') = d_chain st :: committed n' /\
+  committed n' = cversions o (d_chain st) (ccompleted (list tok) es) /\
+  last (versions_view (fst w')) (d_chain st) = run o (d_chain st) (ccompleted (list tok) es) /\
+  (snd w' = false -> d_chain (fst w') = run o (d_chain st) (ccompleted (list tok) es)) /\
+  oracles_of (fst w') = o.
+Proof. exact driver_versions_are_run. Qed.
+Print Assumptions C10_driver_versions_are_run.
